@@ -166,6 +166,22 @@ def check(ctx, files, unsplit, models, tags, k):
     results.append(walk_outcomes(d, models))
     ctx.monitor("directory_walk_comparisons")
     ctx.cover("layout:same-base-name-in-several-directories")
+    # fourth layout: the files spread over a model folder and library folders handed over with the library_folders
+    # option, the folders being siblings whose names start alike (lib, lib_local, lib_local2, ...)
+    if len(files) >= 2:
+        shutil.rmtree(d, ignore_errors=True)
+        os.makedirs(d)
+        fnames = ["lib", "lib_local", "lib_local2", "lib2", "libx"]
+        folders = []
+        for i, t in enumerate(files):
+            fd = os.path.join(d, fnames[min(i, len(fnames) - 1)] + ("" if i < len(fnames) else str(i)))
+            os.makedirs(fd)
+            folders.append(fd)
+            with open(os.path.join(fd, "f%d.mo" % i), "w") as f:
+                f.write(t)
+        results.append(walk_outcomes(folders[0], models, folders[1:]))
+        ctx.monitor("directory_walk_comparisons")
+        ctx.cover("layout:sibling-library-folders-with-a-common-name-prefix")
     shutil.rmtree(d, ignore_errors=True)
     for layout, res in enumerate(results):
         for key, val in res.items():
@@ -194,7 +210,7 @@ def order_kind(files, perm):
     return "package-definition-first"
 
 
-def walk_outcomes(folder, models):
+def walk_outcomes(folder, models, library_folders=()):
     from pathlib import Path
     out = {}
     # tools.compiler.parse_all
@@ -202,7 +218,7 @@ def walk_outcomes(folder, models):
         import pymoca.ast as past
         import tools.compiler as comp
         lib = past.Tree(name="ModelicaTree")
-        files, errs = comp.parse_all([Path(folder)], lib)
+        files, errs = comp.parse_all([Path(folder)] + [Path(p) for p in library_folders], lib)
         for m in models:
             out[("parse_all", m)] = c06.flatten_handle(lib, m)
     except Exception as e:
@@ -212,7 +228,7 @@ def walk_outcomes(folder, models):
     from pymoca.backends.casadi import api
     for m in models[:2]:
         try:
-            model = api.transfer_model(folder, m, {})
+            model = api.transfer_model(folder, m, {"library_folders": list(library_folders)} if library_folders else {})
             sig = ([[v.symbol.name() for v in getattr(model, k)] for k in ("states", "alg_states", "parameters", "constants")],
                    sorted(str(e) for e in model.equations))
             out[("casadi_api", m)] = ("ok", repr(sig))
